@@ -1,0 +1,34 @@
+//go:build verif
+
+package hsms
+
+// Verification hooks for the message layer (add-only, compiled only with -tags verif).
+
+// VerifFrameBuffers returns copies of the slices buildFrameBuffers hands to the socket writer
+// for msg, in order.
+func VerifFrameBuffers(msg Message) [][]byte {
+	bufs := buildFrameBuffers(msg)
+	out := make([][]byte, len(bufs))
+	for i, b := range bufs {
+		out[i] = append([]byte(nil), b...)
+	}
+
+	return out
+}
+
+// VerifFrameBytes returns the concatenation of buildFrameBuffers(msg): the bytes a connection
+// writes for msg.
+func VerifFrameBytes(msg Message) []byte {
+	var out []byte
+	for _, b := range buildFrameBuffers(msg) {
+		out = append(out, b...)
+	}
+
+	return out
+}
+
+// VerifMaxHSMSMsgLen exposes the unexported frame-length cap.
+const VerifMaxHSMSMsgLen = maxHSMSMsgLen
+
+// VerifDecodeOwnedFrame exposes decodeOwnedFrame (the recv path's decoder).
+func VerifDecodeOwnedFrame(owned []byte) (Message, error) { return decodeOwnedFrame(owned) }
